@@ -1,5 +1,5 @@
 (** C06 — resolved extra accounts never gain privileges. *)
-From SplVerif Require Import Lib.Base Resolution.Seeds Resolution.Account Resolution.Proofs.
+From SplVerif Require Import Lib.Base Resolution.Seeds Resolution.Account Resolution.Proofs Resolution.Global.
 Local Open Scope N_scope.
 
 (** both helpers append exactly one de-escalated meta per stored config, each
@@ -38,3 +38,39 @@ Example C06_nonvacuous :
   de_escalate want [ro; want] = {| m_key := k; m_signer := false; m_writable := true |} /\
   de_escalate want [] = {| m_key := k; m_signer := false; m_writable := true |}.
 Proof. repeat split. Qed.
+
+(** whole-instruction consequences, for any number of configs resolving to the same key *)
+
+(** NO KEY GAINS WRITE ACCESS: a key the instruction names, and names only read-only, is read-only
+    in every account either helper appends *)
+Theorem C06_no_key_gains_write : forall cfgs pre app, appended_ok cfgs pre app ->
+  forall k, (exists p, In p pre /\ m_key p = k) ->
+  (forall p, In p pre -> m_key p = k -> m_writable p = false) ->
+  forall a, In a app -> m_key a = k -> m_writable a = false.
+Proof. exact no_key_gains_write. Qed.
+Theorem C06_offchain_no_key_gains_write : forall find_pda fetch cfgs ix pid kds metas out,
+  offchain_loop find_pda fetch cfgs ix pid kds metas = Ok out ->
+  forall k, (exists p, In p metas /\ m_key p = k) ->
+  (forall p, In p metas -> m_key p = k -> m_writable p = false) ->
+  forall a, In a out -> m_key a = k -> m_writable a = false.
+Proof. exact offchain_no_key_gains_write. Qed.
+Theorem C06_cpi_no_key_gains_write : forall find_pda pool cfgs ix pid infos metas out infos',
+  cpi_loop find_pda pool cfgs ix pid infos metas = Ok (out, infos') ->
+  forall k, (exists p, In p metas /\ m_key p = k) ->
+  (forall p, In p metas -> m_key p = k -> m_writable p = false) ->
+  forall a, In a out -> m_key a = k -> m_writable a = false.
+Proof. exact cpi_no_key_gains_write. Qed.
+(** no key gains signer status: the signers of the result are the caller's own metas *)
+Theorem C06_signers_are_the_callers : forall cfgs pre app, appended_ok cfgs pre app ->
+  forall a, In a (pre ++ app) -> m_signer a = true -> In a pre.
+Proof. exact signers_are_the_callers. Qed.
+(** one appended account per stored config *)
+Theorem C06_one_per_config : forall cfgs pre app, appended_ok cfgs pre app -> length app = length cfgs.
+Proof. exact appended_length. Qed.
+(** the converse clause for the whole list: a key the instruction already names writable keeps
+    every configured-writable appended account writable *)
+Theorem C06_writable_key_stays_writable : forall cfgs pre app, appended_ok cfgs pre app ->
+  forall k, (exists p, In p pre /\ m_key p = k /\ m_writable p = true) ->
+  forall j c a, nth_error cfgs j = Some c -> nth_error app j = Some a -> m_key a = k ->
+  pod_bool (e_writable c) = true -> m_writable a = true.
+Proof. exact writable_key_stays_writable. Qed.
